@@ -220,6 +220,47 @@ def copyLock (hasFh : Bool) (srcLock fresh : Nat) : Nat := if hasFh then srcLock
     `reshape_new_lock_counterexample`. -/
 def reshapeLock (_srcLock fresh : Nat) : Nat := fresh
 
+/-- `ArrayProxy.__setstate__` (arrayproxy.py `__getstate__`/`__setstate__`; reached by unpickling and by
+    `copy.copy(proxy)`, which goes through `__reduce_ex__`): the state dict — hence `file_like`, the very same
+    handle object for `copy.copy` — is taken over, `_lock` is dropped and replaced by a NEW `RLock()`.  Outside
+    property C14 (which speaks of `copy()` only); see `setstate_new_lock_counterexample`. -/
+def setstateLock (_srcLock fresh : Nat) : Nat := fresh
+
+/-! ### lock topology of a family of proxies derived from one another -/
+
+/-- one derivation step: a new proxy is made from the existing proxy number `src` -/
+inductive POp where
+  | copy (src : Nat)       -- `proxies[src].copy()`
+  | reshape (src : Nat)    -- `proxies[src].reshape(shape)`
+  | setstate (src : Nat)   -- `copy.copy(proxies[src])` / unpickling: `__setstate__`
+  deriving Repr, DecidableEq, Inhabited
+
+def POp.src : POp → Nat
+  | .copy s => s
+  | .reshape s => s
+  | .setstate s => s
+
+/-- Locks of the proxies after one more derivation.  Every construction (`__init__` or `__setstate__`) creates
+    exactly one new `RLock`; locks are numbered in creation order, so the lock created for the proxy with index
+    `k` is lock `k` (`fresh`).  Which lock the new proxy ends up USING is decided by `copyLock` /
+    `reshapeLock` / `setstateLock`. -/
+def addProxy (hasFh : Bool) (locks : List Nat) (op : POp) : List Nat :=
+  let fresh := locks.length
+  let src := locks.getD op.src 0
+  locks ++ [match op with
+            | .copy _ => copyLock hasFh src fresh
+            | .reshape _ => reshapeLock src fresh
+            | .setstate _ => setstateLock src fresh]
+
+/-- `proxyLocks hasFh ops`: the lock used by every proxy (index 0 = the original proxy, lock 0; index `k+1` =
+    the proxy made by `ops[k]`) -/
+def proxyLocks (hasFh : Bool) (ops : List POp) : List Nat := ops.foldl (addProxy hasFh) [0]
+
+/-- every step derives from a proxy that already exists (`n` proxies exist before the first step) -/
+def validOps : Nat → List POp → Bool
+  | _, [] => true
+  | n, op :: r => decide (op.src < n) && validOps (n + 1) r
+
 /-- same programs with the lock operations removed (`_NullLock`) -/
 def unlocked (p : List Action) : List Action :=
   p.filter (fun a => match a with | .acquire _ => false | .release _ => false | _ => true)
@@ -238,6 +279,11 @@ structure Cfg where
   off     : Nat
   flen    : Nat
   shape   : List Nat
+  /-- `np.memmap(fileobj, …)` succeeds on the handle (a real OS file); `false` for `BytesIO`-likes
+      (`fileno()` raises) and objects without `fileno` — `array_from_file` then falls back to `seek; read` -/
+  mappable : Bool := persist
+  /-- the handle is a compressed-file object (`_is_compressed_fobj`): `np.memmap` is not even attempted -/
+  compressed : Bool := false
 
 /-- one read request of a thread: through which lock, `idx = none` is `np.asarray(proxy)`,
     `outer` = the caller itself wraps the read in `with proxy._lock:` (RLock re-entrancy) -/
@@ -302,8 +348,9 @@ def plan (c : Cfg) (r : Req) : Plan :=
   let pre := if c.persist then getFileobjPersist else []
   let wholePlan : Plan :=
     -- a real file can be memory mapped: no read, the data come from the mapping (np.memmap/OS contract)
-    let mapped := c.mmap && c.persist
-    ⟨wrapOuter r (pre ++ lockedWhole r.lock c.mmap (!mapped) c.off (n * c.isz)),
+    let tryMap := c.mmap && !c.compressed
+    let mapped := tryMap && c.mappable
+    ⟨wrapOuter r (pre ++ lockedWhole r.lock tryMap (!mapped) c.off (n * c.isz)),
      if mapped then 0 else 1,
      fun bytes =>
        let b := if mapped then slice file c.off (n * c.isz) else bytes
